@@ -71,6 +71,12 @@ def replay_chunk(cases: List[Dict[str, Any]]):
             ctx["s"] = [float(x) for x in c["ctxlist"]]
         if sp["bplace"] == "context":
             ctx["b"] = 7.0
+        # a context that already holds <var>_values (left by an earlier sweep over the same variable name, or by a
+        # previous run): the node publishes the sequences it materialised NOW, whatever was there
+        import zlib as _zlib
+        if _zlib.crc32(repr(sorted(sp["vars"])).encode() + repr(sp["expr"]).encode() + sp["kind"].encode()) % 2:
+            for var in sp["vars"]:
+                ctx[f"{var}_values"] = [-1.0]
         obs = run_nodes(nodes, NoDataType(), ctx)
         if obs["construct_error"]:
             out["rejected"] = out.get("rejected", 0) + 1     # not a configuration the loader accepts: outside the property
